@@ -13,7 +13,11 @@ CLAIMED = {
              'transcription of _fjcore.c (flat/hybrid/paged storage, page cache, flat, paged, ring and measured loops, storage '
              'decision, loader, ring read-out) refines the machine definition for all images, inputs and knobs '
              '(C01_native_end_to_end); every campaign case is evaluated inside Coq (vm_compute) on the definition and on the '
-             'three engine models.',
+             'three engine models. Proved end to end from the file (Properties/C01_end_to_end.v): for every writer call '
+             'sequence the library accepts, reading the written file and running it on the featured, fast and native models '
+             '(loaded exactly as fjm_run._run_native groups the Reader\'s dict, every storage layout and knob) gives the cause '
+             'with fault address, op count, output, remaining input, last-ops list and final in-segment memory of the machine '
+             'definition on the declared image (C01_file_run_python, C01_file_run_native, C01_file_run_all_engines_agree).',
         design_ref='DESIGN.md section 4, C01',
         note='Coq kernel + vm_compute; hand transcriptions tied to the code by per-run correspondence on generated images x '
              '3 engines (cause/ops/fault/output/last-ops/read-back/storage mode); the native theorems are guarded only by '
@@ -29,8 +33,10 @@ CLAIMED = {
              'correspondence with the executable layout model Model/Layout.v; universal theorems for the address/label '
              'clauses and the emitted-segment invariant.',
         design_ref='DESIGN.md section 4, C02',
-        note='universal theorem for all non-wflip clauses of the denotation (C02_sound_static_partial, guards F17/F18); the wflip '
-             'chain clause is decided per program by the proved-sound checker; the full C02_sound is not yet a single theorem; '
+        note='universal theorems: all non-wflip clauses of the denotation (C02_sound_static_partial, guards F17/F18), wflip chain '
+             'execution on the machine definition for any image (C02_wflip_exec), no chain op on the input cell '
+             '(C02_aux_not_on_io_partial), and Denotes from one explicit hypothesis (C02_sound_modulo_chains_partial: the '
+             'sharing-table chain invariant, still unproved); that clause is decided per program by the proved-sound checker; '
              'lexing and LALR parsing are shared with the implementation through the AST dump; F8, F16 fixed; F17, F18 known.',
         technique='Coq-certified per-program checker (soundness theorem) + layout model correspondence + partial universal theorems'),
     'C03': dict(
@@ -135,6 +141,34 @@ CLAIMED = {
              'callbacks re-enter only get_word/set_word (re-entering run/__init__ from a callback is unsafe and outside the '
              'property); CPython object creation and libc qsort are not modelled; F1 is a wrong result, not a wild access.',
         technique='Coq proof of index safety on a checked-array model + sanitizer campaign on the real C code'),
+    'C13': dict(
+        category='proof',
+        text='Coq proof (C13_history_free, unguarded) that the result of an assembly is independent of the process\'s call history, '
+             'for an executable model of the stl parse cache / parser globals / recursion-limit layer with parsing, expansion '
+             'and writing as pure section functions; C13_recursion_limit_preserved; C13_structure_is_needed refutes the statement '
+             'for eight variant shapes (key without width / warning mode / mtime+size, shared containers, globals not reset, '
+             'limit not restored). The model\'s shape is regenerated from the source on every run (Tie/C13_tie.v: key components, '
+             'snapshot/restore copies, resets, the finally) and every campaign history is replayed on the model inside Coq; '
+             'the byte-for-byte history-vs-fresh-process campaign tests the real code.',
+        design_ref='DESIGN.md section 4, C13',
+        note='Parsing, expansion and writing are abstract pure functions; their purity on real objects is supported only by '
+             'deep-hash immutability checks and byte comparison. Hypotheses: (resolved path, mtime_ns, size) identifies content, '
+             'and one spelling per stl file. Directory and hash-seed independence are campaign-only. F13 fixed.',
+        technique='Coq history-independence proof on a cache/globals model + regenerated-shape tie + history replay and byte comparison'),
+    'C14': dict(
+        category='proof',
+        text='Qed-closed theorems over an executable Gallina model of parser folding, macro resolution, label resolution/layout, '
+             'the writer and the assemble exception ladder: under one boolean guard per open finding the outcome is success or '
+             'a specific library exception (C14_specific); unguarded: only four raw classes can reach the catch-all '
+             '(C14_catch_all_classes) and a failed assembly never touches the output path (C14_no_file_on_failure, '
+             'C14_never_partial_file). Each guard is refuted by a vm_compute witness; the fixed F7/F8/F9 witnesses are proved '
+             'to be library errors. Campaign: per-error-class generators and token/byte mutations at every width and version, '
+             'with and without the stl, under a watchdog; the spec is evaluated on every real assembly.',
+        design_ref='DESIGN.md section 4, C14',
+        note='partial: sly\'s lexer and LALR driver are exercised, not modelled; depth, count and bit limits are model '
+             'parameters and the generators avoid the bands where CPython stack or memory state decides; guards = known findings '
+             'F10, F9b, N2, N3, N4, N6; F7, F8, F9, N1, N5 fixed.',
+        technique='Coq theorems on an assembly-pipeline error model + error-class generators / mutation campaign with the spec on real runs'),
     'C15': dict(
         category='proof',
         text='Qed-closed universal theorems about a Gallina transcription of _run_featured plus BreakpointHandler incl. '
@@ -200,6 +234,19 @@ CLAIMED = {
              'design). pygame window and PNG encoding not covered (pygame not installed); campaign screens are at most 12x10; '
              'w=8 screens raise ValueError and are outside the property.',
         technique='Coq theorems on a device-extended machine model and a total screen-decoder model + correspondence evaluated in Coq'),
+    'C20': dict(
+        category='proof',
+        text='Small Coq theorems: equal user options give equal argument records to Writer, assembler.assemble and fjm_run.run on '
+             'the one-step, two-step and API routes (C20_same_args_*), and the documented defaults hold (C20_defaults: width 64; '
+             'version 3 iff an output file is requested else 1; stl included unless disabled). The defaults table is regenerated '
+             'from argparse and the keyword defaults on every run (Tie/C20_tie.v). The weight is in the correspondence: subprocess '
+             'routes are compared on .fjm/.fjd bytes, stdout and exit, and the recorded real argument records are checked against '
+             'the model inside Coq.',
+        design_ref='DESIGN.md section 4, C20',
+        note='The theorems are about argument records; equal arguments giving equal bytes is C13. API-inexpressible options are '
+             'compared on the two CLI routes only. The warning-mode default differs between CLI and API and is always passed '
+             'explicitly.',
+        technique='Coq theorems on the option-plumbing model + regenerated-defaults tie + three-route byte/stdout correspondence'),
 }
 
 PENDING_REASON = 'check not built yet in this round (planned per DESIGN.md section 4); not claimed until its theorems and correspondence exist'
